@@ -225,7 +225,7 @@ a unit of their last place of `x` -/
 structure SciOk (m : Nat) (e : Int) (m' : Nat) (e' : Int) (d : Nat) : Prop where
   hN1 : 10 ^ d ≤ (sci m' e' d).1
   hN2 : (sci m' e' d).1 < 10 ^ (d + 1)
-  hK1 : -310 ≤ (sci m' e' d).2
+  hK1 : -324 ≤ (sci m' e' d).2
   hK2 : (sci m' e' d).2 ≤ 320
   hacc : 2 * absdiff ((sci m' e' d).1 * (2 ^ (-(-1074 : Int)).toNat * T ((sci m' e' d).2 - d)))
       (units (-1074) m e * 10 ^ 400) ≤ 2 ^ (-(-1074 : Int)).toNat * T ((sci m' e' d).2 - d)
@@ -240,24 +240,22 @@ theorem sciText_digits (m' : Nat) (e' : Int) (d : Nat) (h1 : -400 ≤ (sci m' e'
   · exact Cfi.natDigits_isDigit _ y hy
   · exact x3 y hy
 
-/-- **E-notation float fields**: for every normal double (`2^-1022` and more), up to twelve
-declared decimals and a text that fits the field, the text written is `size` wide, parses to
+/-- **E-notation float fields**: for every finite non-zero double whose last emitted digit has
+place value `10^-322` or more (`wfE`: every normal double, and every subnormal one from
+`10^(decimals-322)` on), up to twelve declared decimals and a text that fits the field, the text written is `size` wide, parses to
 `r = round(x, decimals − ⌊log10 |x|⌋)`, and writing `r` gives the same text again. -/
 theorem fltE_core (f : Field) (dec : Nat) (fmt c : Char) (hk : f.kind = .flt dec fmt [c])
     (hfmt : fmt = 'E' ∨ fmt = 'e') (hc1 : c ≠ ' ') (hc2 : c.isDigit = false) (hc3 : c ≠ '-')
     (hc4 : c ≠ '+') (hc5 : c ≠ 'e') (hc6 : c ≠ 'E')
-    (neg : Bool) (m : Nat) (e : Int) (hwf : wfn m e) (hdec : dec ≤ 12) (r : Dbl)
+    (neg : Bool) (m : Nat) (e : Int) (hwf : wfE m e dec) (hdec : dec ≤ 12) (r : Dbl)
     (hr : pyRound (.fin neg m e) ((dec : Int) - floorLog10 m e) = some r)
     (hfit : (fmtE r dec (fmt == 'E')).length ≤ f.size) :
     ∃ t, renderText f (.dbl (.fin neg m e)) = .ok t ∧ t.length = f.size ∧
       parseText f.kind t = some (.dbl r) ∧ renderText f (.dbl r) = .ok t ∧
       ∃ m' e' k, r = .fin neg m' e' ∧ SciOk m e m' e' dec ∧
         t = List.replicate k ' ' ++ subst1 '.' c (sciText neg m' e' dec (if (fmt == 'E') = true then 'E' else 'e')) := by
-  obtain ⟨hk1, hk2⟩ := kbounds m e hwf
-  have hm0 : m ≠ 0 := by
-    intro h0; subst h0
-    have := two_pow_pos 52
-    have := hwf.1; omega
+  obtain ⟨hk1, hk2⟩ := kboundsE m e dec hwf hdec
+  have hm0 : m ≠ 0 := hwf.1
   rw [pyRound_nd neg m e _ (by omega) (by omega)] at hr
   cases hnd : nearestDec 53 (-1074) 971 (roundScaled m e ((dec : Int) - floorLog10 m e)) ((dec : Int) - floorLog10 m e) with
   | none => rw [hnd] at hr; simp at hr
@@ -265,7 +263,7 @@ theorem fltE_core (f : Field) (dec : Nat) (fmt c : Char) (hk : f.kind = .flt dec
     obtain ⟨m', e'⟩ := p
     rw [hnd] at hr
     simp only [Option.map_some, Option.some.injEq] at hr
-    obtain ⟨hok, hN1, hN2, hK1, hK2, hback, hself, hk'1, hk'2, hacc⟩ := sci_core m e hwf dec hdec m' e' hnd
+    obtain ⟨hok, hN1, hN2, hK1, hK2, hback, hself, hk'1, hk'2, hacc⟩ := sci_core m e dec hwf hdec m' e' hnd
     subst hr
     have hshape := fmtE_fin neg m' e' dec (fmt == 'E') hok.hm0 hN1 hN2
     have hlenN := natDigits_len _ _ hN1 hN2
